@@ -37,9 +37,13 @@ theorem lsnr_mono {w w' : World} {a : Label} (h : Rel w a w') {l : Nat} {x : Lsn
   all_goals first
     | exact ⟨x, by simpa using hx, rfl, id, id⟩
     | skip
+  case bindOk =>
+    refine ⟨x, ?_, rfl, id, id⟩
+    simp only [setCall_lsnrs, bound_lsnrs]
+    rw [List.getElem?_append_left (lt_of_getElem? hx)]; exact hx
   case listenOk =>
     refine ⟨x, ?_, rfl, id, id⟩
-    simp only [setCall_lsnrs]
+    simp only [setCall_lsnrs, bound_lsnrs]
     rw [List.getElem?_append_left (lt_of_getElem? hx)]; exact hx
   case refreshOk => exact lsnr_modify_mono _ hx (fun y => ⟨rfl, id, by simp⟩)
   case refreshClosed => exact lsnr_modify_mono _ hx (fun y => ⟨rfl, id, by simp⟩)
@@ -240,24 +244,21 @@ theorem valid_step {w w' : World} {a : Label} (h : Rel w a w') (hv : Valid w) : 
     · cases hh : k - w.calls.length with
       | zero => simp only [hh, List.getElem?_cons_zero, Option.some.injEq] at hk; subst hk; cases hl
       | succ n => simp [hh] at hk
-  case listenOk k c a hk hpc ha hu =>
+  case bindBusy k c a hk hpc hr ha hu =>
+    exact ⟨hv.lst, valid_set (w := w) (Nat.le_refl _) hv (fun l hl => hv.call _ _ l hk hl)⟩
+  case bindOk k c a hk hpc hr ha hu hkd =>
     refine ⟨fun l hl => ?_, ?_⟩
-    · have := hv.lst l hl; simp; omega
-    · simp only [setCall_calls, setCall_lsnrs]
+    · simp only [setCall_lst, bound_lst, Option.some.injEq] at hl; subst hl; simp
+    · simp only [setCall_calls, setCall_lsnrs, bound_calls, bound_lsnrs]
       exact valid_set (w := w) (by simp) hv (fun l hl => by simp only [Option.some.injEq] at hl; subst hl; simp)
-  case storeBind k c hk hpc hkd =>
-    exact ⟨fun l hl => hv.call k c l hk hl, valid_set (w := w) (Nat.le_refl _) hv (fun l hl => hv.call _ _ l hk hl)⟩
-  case storeServe k c hk hpc hkd =>
-    exact ⟨fun l hl => hv.call k c l hk hl, valid_set (w := w) (Nat.le_refl _) hv (fun l hl => hv.call _ _ l hk hl)⟩
+  case listenOk k c a hk hpc hr ha hu hkd =>
+    refine ⟨fun l hl => ?_, ?_⟩
+    · simp only [setCall_lst, bound_lst, Option.some.injEq] at hl; subst hl; simp
+    · simp only [setCall_calls, setCall_lsnrs, bound_calls, bound_lsnrs]
+      exact valid_set (w := w) (by simp) hv (fun l hl => by simp only [Option.some.injEq] at hl; subst hl; simp)
   case readSome k c l hk hpc hl =>
     exact ⟨hv.lst, valid_set (w := w) (Nat.le_refl _) hv (fun l' hl' => by
       simp only [Option.some.injEq] at hl'; subst hl'; exact hv.lst _ hl)⟩
-  case setRunning k c hk hpc =>
-    refine ⟨hv.lst, valid_set (w := w) (Nat.le_refl _) hv (fun l hl => ?_)⟩
-    simp only [] at hl
-    split at hl
-    · exact hv.lst l hl
-    · exact hv.call k c l hk hl
   case refreshOk k c f hk hpc hl ho =>
     exact ⟨fun l hl' => by simpa using hv.lst l hl', by
       simp only [setCall_calls, setCall_lsnrs, setDeadlineL_calls]
